@@ -241,6 +241,21 @@ let () = run_lines (fun toks ->
          end
        done;
        if !dead then "NONE" else fin (join (List.rev !out)) bad used (List.length tr) ^ seeding)
+  | "gfqx" :: ub :: bits :: pceil :: p :: degree :: seed :: n :: rest ->
+    (* GFqExtFast::random with identity tables and a pairing "addition": the result shows the two table indices.
+       quot = the floating-point quotients the implementation reported, by d (floor(d/p) where it reported none) *)
+    let (_, qt) = split_bar [] rest in
+    let tbl = List.map (fun t -> let c = String.index t ':' in (zs (String.sub t 0 c), zs (String.sub t (c + 1) (String.length t - c - 1)))) qt in
+    let p = zs p in
+    let quot (d : Model.z) = (try List.assoc d tbl with Not_found -> Model.Z.div d p) in
+    let big = Model.Z.pow (zs "2") (zs "40") in
+    let s = ref (Model.giv_ctor_nz (zs seed)) and out = ref [] in
+    for _ = 1 to int_of_string n do
+      let (r, x) = Model.gfqx_random (fun i -> i) (fun i -> i) (fun a b -> Model.Z.add (Model.Z.mul a big) b)
+          (zs ub) (zs bits) (zs pceil) p (nat (int_of_string degree)) quot !s in
+      out := (sz x ^ ":" ^ sz (Model.Z.div r big) ^ "," ^ sz (Model.Z.modulo r big)) :: !out; s := x
+    done;
+    join (List.rev !out) ^ " | " ^ sz !s
   | "riiseed" :: seed :: _ -> (match Model.rii_ctor_seed [] (zs seed) with None -> "NONE" | Some v -> sz v)
   | "polyseq" :: kind :: p :: seed :: bits :: r0len :: ops ->
     (* one destination reused; op = letter + number (see harness); E<order> X<order>,<s> B<size> are the Extension front ends *)
